@@ -347,6 +347,18 @@ theorem frame_spec (d : Ds) (k : Nat) :
   · intro hc hk; unfold frame; rw [if_neg (by simp [hc]), if_neg hk]
   · intro hc; simp [frame, hc]
 
+/-- **two or more lists**: NumPy then indexes pointwise (the lists are broadcast against each
+other into a single result axis), so there are more kept calibration entries than result
+axes; `__getitem__` never returns an incoherent dataset for such an expression — whenever NumPy
+accepts it, the call raises (ValueError from the calibration validators), and nothing else
+happens to the receiver (`step` returns an error). -/
+theorem getitem_multilist_raises {d : Ds} {ix : List Item} {p : Plan} (h : plan d.shape ix = .ok p)
+    (hm : p.multiList = true) :
+    getitem d ix = .error .value ∧ step d (.getitem ix) = .error .value := by
+  have h1 : getitem d ix = .error .value := by
+    unfold getitem; rw [h]; simp [hm]
+  exact ⟨h1, by simp [step, h1]⟩
+
 /-! ### exact error guards -/
 
 /-- `crop` without `axes` raises exactly when `crop_widths` does not have one entry per axis
@@ -458,5 +470,8 @@ example : ∃ r, step ex4 (.virtualImage [4, 4] []) = .ok (ex4, some r) ∧ r.sh
     r.units = ["a", "b"] := ⟨_, rfl, rfl, rfl⟩
 example : ∃ r, step ex3 (.frame 2) = .ok (ex3, some r) ∧ r.cls = .d2 ∧ r.units = ["b", "c"] :=
   ⟨_, rfl, rfl, rfl⟩
+
+-- a two-list expression NumPy accepts: the plan exists and is multi-list
+example : ∃ p, plan ex3.shape [.list [0, 1], .list [1, 2]] = .ok p ∧ p.multiList = true := ⟨_, rfl, rfl⟩
 
 end QuantemModel.Props.C03
